@@ -66,8 +66,21 @@ impl Write for AsyncWritableFile {
         cx: &mut Context<'_>,
     ) -> Poll<Result<(), async_std::io::Error>> {
         let this = self.get_mut();
-        let file = Pin::new(&mut this.content);
-        file.poll_flush(cx)
+        match Pin::new(&mut this.content).poll_flush(cx) {
+            Poll::Ready(Ok(())) => {}
+            other => return other,
+        }
+        // publish the buffer, like the sync MemoryFS does on flush
+        match this.fs.try_write() {
+            Some(mut handle) => {
+                this.publish(&mut handle, this.content.get_ref().clone());
+                Poll::Ready(Ok(()))
+            }
+            None => {
+                cx.waker().wake_by_ref();
+                Poll::Pending
+            }
+        }
     }
     fn poll_close(
         self: Pin<&mut Self>,
@@ -79,11 +92,8 @@ impl Write for AsyncWritableFile {
     }
 }
 
-impl Drop for AsyncWritableFile {
-    fn drop(&mut self) {
-        let mut content = vec![];
-        swap(&mut content, self.content.get_mut());
-        let mut handle = futures::executor::block_on(self.fs.write());
+impl AsyncWritableFile {
+    fn publish(&self, handle: &mut AsyncMemoryFsImpl, content: Vec<u8>) {
         match handle.files.get(&self.destination) {
             Some(file) if file.file_type == VfsFileType::File => {}
             // the file was removed (or replaced by a directory) while this handle was open:
@@ -97,6 +107,15 @@ impl Drop for AsyncWritableFile {
                 content: Arc::new(content),
             },
         );
+    }
+}
+
+impl Drop for AsyncWritableFile {
+    fn drop(&mut self) {
+        let mut content = vec![];
+        swap(&mut content, self.content.get_mut());
+        let mut handle = futures::executor::block_on(self.fs.write());
+        self.publish(&mut handle, content);
     }
 }
 
